@@ -3,6 +3,7 @@ import LdpcV.Driver.C15
 import LdpcV.Driver.Dec
 import LdpcV.Driver.C04
 import LdpcV.Driver.C08
+import LdpcV.Driver.C02
 open LdpcV
 
 def dispatch (line : String) : String :=
@@ -17,6 +18,8 @@ def dispatch (line : String) : String :=
   | "c04" :: rest => Driver.C04.handleC04 rest out
   | "c05" :: rest => Driver.C04.handleC05 rest out
   | "c08" :: rest => Driver.C08.handle rest out
+  | "c02" :: rest => Driver.C02.handleC02 rest out
+  | "c09" :: rest => Driver.C02.handleC09 rest out
   | _ => "BADLINE unknown-tag"
 
 partial def loop (h : IO.FS.Stream) (o : IO.FS.Stream) : IO Unit := do
